@@ -19,7 +19,14 @@ def parse(msg, description, cond_text):
     if not rest.startswith(prefix):
         raise ParseError("description missing: %r" % rest[:80])
     rest = rest[len(prefix):]
-    if not rest.startswith(cond_text):
+    cands = [cond_text]
+    if cond_text.startswith("(") and cond_text.endswith(")"):
+        cands.append(cond_text[1:-1])  # the reported text of a parenthesised body comes without the parentheses
+    for c in cands:
+        if rest.startswith(c) and (len(rest) == len(c) or rest[len(c)] == ":"):
+            cond_text = c
+            break
+    else:
         raise ParseError("condition text differs: %r vs %r" % (rest[:len(cond_text) + 10], cond_text))
     tail = rest[len(cond_text):]
     out = {"location": (m.group(1), int(m.group(2)), m.group(3)), "entries": [], "text": cond_text}
